@@ -18,6 +18,7 @@ func init() {
 			c11Local(r)
 			c11StayPaused(r)
 			c04Receiver(r)
+			c04Update(r)
 		})
 }
 
@@ -229,12 +230,22 @@ func c11StayPaused(r *R) {
 				continue
 			}
 			okGuard := pt.Has("-response.IsPaused()")
-			if pt.Has("+m.resumeOther(chid)==nil") && pt.Has("+"+gb+"#1==nil") {
-				want := "nil"
-				if pt.Has("+" + gb + "#0.SelfPaused()") {
-					want = "ErrPause"
+			if pt.Has("+m.resumeOther(chid)==nil") {
+				// the counterparty's resume was recorded: the transport signal is decided by the
+				// local pause state, which must have been read — on every such path
+				ret := pt.RetDesc(0)
+				var ok bool
+				switch {
+				case pt.Has("+"+gb+"#1==nil") && pt.Has("+"+gb+"#0.SelfPaused()"):
+					ok = ret == "ErrPause"
+				case pt.Has("+"+gb+"#1==nil") && pt.Has("-"+gb+"#0.SelfPaused()"):
+					ok = ret == "nil"
+				case pt.Has("-" + gb + "#1==nil"):
+					ok = ret == gb+"#1"
+				default:
+					ok = false // returned without consulting the local pause state
 				}
-				r.c.Check(okGuard && pt.RetDesc(0) == want, "C11.5", key, r.p.Pos(or.Pos()), "ErrPause exactly when the local side is still paused", "after the counterparty resumed, the transport signal is "+pt.RetDesc(0)+" where "+want+" is required: "+pt.Describe())
+				r.c.Check(okGuard && ok, "C11.5", key, r.p.Pos(or.Pos()), "ErrPause exactly when the local side is still paused", "after the counterparty resumed, the transport signal is "+ret+" without (or against) the local pause state: "+pt.Describe())
 			} else {
 				r.c.Check(okGuard && pt.RetDesc(0) != "ErrPause", "C11.5", key, r.p.Pos(or.Pos()), "error path", "ErrPause on an error path")
 			}
